@@ -48,8 +48,7 @@ class TaskGenerator:
         self.stopped = False
 
         # Filter nodes and partition into subsets of size ``gran``.
-        filter_func = getattr(mutator, 'filter', lambda x: True)
-        filtered = list(nodes.filter_nodes(exprs, filter_func, max_depth))
+        filtered = list(nodes.filter_nodes(exprs, self.__filter, max_depth))
         self.num_filtered = len(filtered)
         self.gran = len(filtered) if gran is None else gran
         self.subsets = _partition(filtered, self.gran) if self.gran else []
@@ -72,7 +71,7 @@ class TaskGenerator:
             # Filter nodes in subset in order to ensure that the mutator still
             # applies after updating ``self.exprs`` via ``self.update``.
             subset = self.subsets[task_id]
-            subset = [n for n in subset if self.mutator.filter(n)]
+            subset = [n for n in subset if self.__filter(n)]
             if not subset:
                 continue
 
@@ -87,30 +86,40 @@ class TaskGenerator:
             return Task(task_id, self.exprs, simps)
         raise StopIteration
 
+    def __filter(self, node):
+        """Apply the filter of ``self.mutator`` to ``node``.
+
+        As for strategy hierarchical, a failure within a mutator (which
+        is to be expected on ill-formed input) only costs its candidates.
+        """
+        try:
+            return getattr(self.mutator, 'filter', lambda x: True)(node)
+        except Exception as e:
+            logging.info(f'{type(e)} in filter of {self.mutator}: {e}')
+            return False
+
+    def __mutations(self, node):
+        """Generate the simplifications of ``self.mutator`` for ``node``."""
+        try:
+            if hasattr(self.mutator, 'mutations'):
+                yield from self.mutator.mutations(node)
+            elif hasattr(self.mutator, 'global_mutations'):
+                yield from self.mutator.global_mutations(node, self.exprs)
+        except Exception as e:
+            logging.info(f'{type(e)} in application of {self.mutator}: {e}')
+
     def __get_substs(self, subset):
         """Generate substitutions for ``subset`` based on ``self.mutator``."""
         # Granularity 1: Try all mutations separately.
         if len(subset) == 1:
-            node = subset[0]
-            if hasattr(self.mutator, 'mutations'):
-                mutations = self.mutator.mutations(node)
-            elif hasattr(self.mutator, 'global_mutations'):
-                mutations = self.mutator.global_mutations(node, self.exprs)
-            else:
-                return None
-            return list(mutations)
+            return list(self.__mutations(subset[0]))
 
         # Granularity > 1: Pick first simplification for each node and group
         # them all into one.
         fresh_vars = []
         substs = dict()
         for node in subset:
-            if hasattr(self.mutator, 'mutations'):
-                mutations = self.mutator.mutations(node)
-            elif hasattr(self.mutator, 'global_mutations'):
-                mutations = self.mutator.global_mutations(node, self.exprs)
-            else:
-                continue
+            mutations = self.__mutations(node)
 
             try:
                 simp = next(iter(mutations))
